@@ -9,7 +9,7 @@ ENGINES = [
 NOTES = ('Contract-based deductive verification. exit 0 = all obligations discharged; exit 1 = VIOLATION; '
          'exit 2 = undecided (lost anchor / unsupported construct / timeout), never an alarm. See DESIGN.md.')
 NOT_APPLICABLE = {
-    'C09': 'graph traversal lives in petgraph (DfsPostOrder) behind HRTB + raw pointers; Verus cannot parse it and a contract would only restate assumed petgraph contracts; Kani on real petgraph measured: no result in 15 min for 3 nodes (DESIGN.md §7)',
+    'C09': 'graph traversal lives in petgraph (DfsPostOrder) behind HRTB + raw pointers; Verus cannot parse it and a contract would only restate assumed petgraph contracts; Kani on real petgraph measured: no result in 15 min for 3 nodes; a second attempt on a minimal array-backed graph type implementing the petgraph traits (design_probes/kani_graph_proc): one CONCRETE 2-node graph verifies in 7 s, any symbolic adjacency, an in-harness enumeration of the 81 two-node multigraphs and a nested GraphNode all exceed 20 min (DESIGN.md §7, §11.7)',
 }
 CHECKS = {
     'C13': dict(
